@@ -13,6 +13,11 @@ package app_test
 // (`create` / `update`) carrying the spot prices the keeper used; queries go to the public
 // GetArithmeticTwap / GetGeometricTwap (+ToNow) API.
 //
+// A third file (twap_time_test.go) adds: the representation of the query instants (Location, monotonic reading, API
+// path: every question is asked in several of them and the answers compared), block headers with a non-UTC Location
+// (observed), sub-millisecond shapes of block / query times, and DIRECTED drain / refill histories with their own
+// error-flag oracle.
+//
 // ORACLE (shares nothing with the Lean model): the engine keeps its own never-pruned log of the
 // recorded end-of-block prices and recomputes every answer from scratch with big.Int / big.Rat /
 // 700-bit big.Float (see `judge`).  Tolerances are stated at `geomTol`.
@@ -91,6 +96,9 @@ type twQuery struct {
 	zero     bool // judged as a zero-result finding
 	panicMsg string
 	w        string // "<pool> <d0> <d1>" for a query of a world history (ops `warith` / `wgeom`), else ""
+	rep      string // how the two instants are handed to the code (twap_time_test.go: Location / monotonic reading); "" = UTC
+	path     string // "" = keeper API, "querier" = client.Querier, "grpc" = the app's gRPC query router (protobuf round trip)
+	toNow    bool
 }
 
 // catchMsg: like catch, and keeps the panic value.
@@ -126,12 +134,24 @@ type twEngine struct {
 	pickCut    *time.Time // cutoff of the pruning pass about to be armed: pickTime aims at it
 	lastAct    string     // kind and outcome of the last action()
 	lastActErr error
+
+	// twap_time_test.go
+	hdrZone   *time.Location // this history's block HEADERS carry this (non-UTC) location; nil = UTC, what consensus delivers
+	directed  string         // kind of pool the next createPool builds for a directed drain / refill history ("" = random)
+	edgeBig   string         // bal2-edge pools: the denom with the huge reserve (the price against it rounds to zero)
+	edgeSmall string
 }
 
 // finalize ends the current block through the real ABCI flow and opens the next one at `next`.
 func (e *twEngine) finalize(next time.Time) {
 	h := e.h
-	if _, err := h.App.FinalizeBlock(&abci.RequestFinalizeBlock{Height: h.Ctx.BlockHeight(), Time: h.Ctx.BlockTime()}); err != nil {
+	reqTime := h.Ctx.BlockTime()
+	if e.hdrZone != nil {
+		// the same instants, the header carrying a non-UTC Location (not what consensus delivers: observed, see headerObservation)
+		reqTime, next = reqTime.In(e.hdrZone), next.In(e.hdrZone)
+		e.o.Count("class.block-header.non-utc-location")
+	}
+	if _, err := h.App.FinalizeBlock(&abci.RequestFinalizeBlock{Height: h.Ctx.BlockHeight(), Time: reqTime}); err != nil {
 		panic(err)
 	}
 	if _, err := h.App.Commit(); err != nil {
@@ -141,6 +161,13 @@ func (e *twEngine) finalize(next time.Time) {
 	header.Time = next
 	header.Height++
 	h.Ctx = h.App.BaseApp.NewUncachedContext(false, header).WithHeaderInfo(coreheader.Info{Height: header.Height, Time: header.Time})
+	if e.hdrZone != nil {
+		if h.Ctx.BlockTime().Location() == time.UTC && h.Ctx.HeaderInfo().Time.Location() == time.UTC {
+			e.o.Count("observation.block-header.non-utc-location:normalised-to-utc-by-sdk-context")
+		} else {
+			e.o.Count("observation.block-header.non-utc-location:SURVIVES-in-context")
+		}
+	}
 }
 
 // runMsg: one message through the real msg service router, atomically.
@@ -337,8 +364,13 @@ func (e *twEngine) createPool() bool {
 	all := []string{"bar", "baz", "foo"}
 	r.Shuffle(3, func(i, j int) { all[i], all[j] = all[j], all[i] })
 	k := r.Intn(10)
+	if e.directed == "cl" {
+		k = 0
+	}
 	var err error
 	switch {
+	case e.directed == "bal-edge":
+		err = e.createEdgePool(all)
 	case k < 3:
 		e.kind = "cl"
 		e.denoms = []string{all[0], all[1]}
@@ -599,6 +631,9 @@ func (e *twEngine) randDt() time.Duration {
 	if d > 0 && r.Intn(5) == 0 {
 		d += time.Duration(r.Intn(1000000)) // nanosecond part
 	}
+	if d > 0 && r.Intn(5) == 0 {
+		d = e.shapeSubMs(e.h.Ctx.BlockTime(), d, "")
+	}
 	if r.Intn(40) == 0 { // long gaps: the accumulators grow by price x up to 2^40 ms in one step
 		long := []time.Duration{24 * time.Hour, 30 * 24 * time.Hour, 365 * 24 * time.Hour, 30 * 365 * 24 * time.Hour}[r.Intn(4)] + d
 		if e.h.Ctx.BlockTime().Add(long).Before(twLatest) { // block times stay representable as int64 nanoseconds
@@ -623,9 +658,9 @@ func (e *twEngine) tracked() bool {
 func sameRec(a, b twaptypes.TwapRecord) bool { return recStr(a) == recStr(b) }
 
 // logRecord appends / replaces the oracle's log entry for the record just stored.
-func (e *twEngine) logRecord(rec twaptypes.TwapRecord, errInd bool) {
-	n := twRec{t: rec.Time, sp0: rec.P0LastSpotPrice.BigInt(), sp1: rec.P1LastSpotPrice.BigInt(), errInd: errInd}
-	if k := len(e.recs); k > 0 && e.recs[k-1].t.Equal(rec.Time) {
+func (e *twEngine) logRecord(t time.Time, rec twaptypes.TwapRecord, errInd bool) {
+	n := twRec{t: t, sp0: rec.P0LastSpotPrice.BigInt(), sp1: rec.P1LastSpotPrice.BigInt(), errInd: errInd}
+	if k := len(e.recs); k > 0 && e.recs[k-1].t.Equal(t) {
 		n.errInd = n.errInd || e.recs[k-1].errInd // a failed read at the same block time stays a failed read at that time
 		e.recs[k-1] = n
 		return
@@ -667,7 +702,8 @@ func (e *twEngine) endBlock(dt time.Duration) {
 		if (after.P0LastSpotPrice.IsZero() || after.P1LastSpotPrice.IsZero()) && !errNow {
 			e.o.Fail("update:zero-price-recorded-without-error", fmt.Sprintf("pool %d record %s", e.poolId, recStr(after)))
 		}
-		e.logRecord(after, indErr)
+		e.logRecord(t, after, indErr)
+		e.headerObservation(t)
 	case tracked:
 		// the EndBlocker saw the pool but stored nothing: updateRecord rejected the block
 		e.o.Emit(fmt.Sprintf("twap update %s %d 0 0 0", nsOf(t), hgt), "err", true)
@@ -917,8 +953,9 @@ func (e *twEngine) pickTime(now time.Time) time.Time {
 	}
 	n := len(recs)
 	first, last := recs[0].t, recs[n-1].t
-	small := []time.Duration{0, 1, -1, time.Millisecond, -time.Millisecond, 500 * time.Microsecond, -500 * time.Microsecond, 999999, time.Second}
-	switch r.Intn(14) {
+	small := []time.Duration{0, 1, -1, time.Millisecond, -time.Millisecond, 500 * time.Microsecond, -500 * time.Microsecond, 999999, time.Second,
+		700 * time.Microsecond, -700 * time.Microsecond, -999999}
+	switch r.Intn(16) {
 	case 0:
 		return now
 	case 1:
@@ -961,14 +998,21 @@ func (e *twEngine) pickTime(now time.Time) time.Time {
 		return recs[i].t.Add(nx.Sub(recs[i].t) / 2)
 	case 12:
 		return last
+	case 13, 14:
+		// exactly on / 1 ns around the millisecond boundaries next to a record time (the accumulators see canonical
+		// milliseconds, the error bookkeeping compares nanosecond instants)
+		t := recs[r.Intn(n)].t.Truncate(time.Millisecond)
+		e.o.Count("class.query-time.on-ms-boundary-next-to-record")
+		return t.Add([]time.Duration{0, -1, 1, time.Millisecond, time.Millisecond - 1, time.Millisecond + 1, -time.Millisecond, 700 * time.Microsecond}[r.Intn(8)])
 	default:
 		return last.Add(small[r.Intn(len(small))])
 	}
 }
 
-// ask runs one query against the keeper.
+// ask runs one query against the keeper: through q.path (keeper API / client.Querier / gRPC router), the two instants
+// handed over in the representation q.rep (twap_time_test.go).
 func (e *twEngine) ask(q *twQuery, toNow bool) {
-	k := e.h.App.TwapKeeper
+	q.toNow = toNow
 	base, quote := e.d1, e.d0
 	if !q.q0 {
 		base, quote = e.d0, e.d1
@@ -976,28 +1020,21 @@ func (e *twEngine) ask(q *twQuery, toNow bool) {
 	var v osmomath.Dec
 	var err error
 	cctx, _ := e.h.Ctx.CacheContext()
-	ok := catchMsg(&q.panicMsg, func() {
-		switch {
-		case q.geom && toNow:
-			v, err = k.GetGeometricTwapToNow(cctx, e.poolId, base, quote, q.s)
-		case q.geom:
-			v, err = k.GetGeometricTwap(cctx, e.poolId, base, quote, q.s, q.e)
-		case toNow:
-			v, err = k.GetArithmeticTwapToNow(cctx, e.poolId, base, quote, q.s)
-		default:
-			v, err = k.GetArithmeticTwap(cctx, e.poolId, base, quote, q.s, q.e)
-		}
-	})
+	ok := catchMsg(&q.panicMsg, func() { v, err = e.callTwap(cctx, q, base, quote) })
+	flagged := err != nil && strings.Contains(err.Error(), "error in pool spot price occurred")
 	switch {
 	case !ok:
 		q.status = "panic"
+	case v.IsNil() && flagged:
+		q.status = "flagged-without-value" // the gRPC path drops the value that comes with the "may be faulty" error
+		q.flag = true
 	case v.IsNil():
 		q.status = "err"
 	default:
 		q.status = "ok"
 		q.v = v.BigInt()
 		q.flag = err != nil
-		if err != nil && !strings.Contains(err.Error(), "error in pool spot price occurred") {
+		if err != nil && !flagged {
 			q.status = "err" // a value together with an unrelated error does not happen; keep it visible
 		}
 	}
@@ -1344,16 +1381,18 @@ func (e *twEngine) queries(cnt int) []*twQuery {
 		if en.Before(s) && e.r.Intn(8) != 0 {
 			s, en = en, s
 		}
-		q := &twQuery{s: s, e: en, q0: e.r.Intn(2) == 0, geom: e.r.Intn(2) == 0, w: e.wq}
+		q := &twQuery{s: s, e: en, q0: e.r.Intn(2) == 0, geom: e.r.Intn(2) == 0, w: e.wq, rep: e.pickRep()}
 		toNow := en.Equal(now) && e.r.Intn(2) == 0
 		e.ask(q, toNow)
 		e.o.Emit(q.op(now), q.obs(), q.status == "ok")
+		e.locCheck(q, now, 2)
 		e.judge(q, now)
 		out = append(out, q)
 		if q.geom { // the opposite quote direction of the same interval
-			p := &twQuery{s: s, e: en, q0: !q.q0, geom: true, w: e.wq}
+			p := &twQuery{s: s, e: en, q0: !q.q0, geom: true, w: e.wq, rep: e.pickRep()}
 			e.ask(p, toNow)
 			e.o.Emit(p.op(now), p.obs(), p.status == "ok")
+			e.locCheck(p, now, 1)
 			e.judge(p, now)
 			e.reciprocal(q, p, now)
 			out = append(out, p)
@@ -1395,7 +1434,7 @@ func (e *twEngine) pruneRound() {
 		if b.e.After(oldNow) {
 			continue
 		}
-		a := &twQuery{s: b.s, e: b.e, q0: b.q0, geom: b.geom, w: b.w}
+		a := &twQuery{s: b.s, e: b.e, q0: b.q0, geom: b.geom, w: b.w, rep: e.pickRep()}
 		e.ask(a, false)
 		e.o.Emit(a.op(now), a.obs(), a.status == "ok")
 		e.judge(a, now)
@@ -1411,6 +1450,37 @@ func (e *twEngine) pruneRound() {
 		}
 		e.o.Count("prune.answer-compared")
 	}
+}
+
+// openHistory starts a single-pool history: a fresh pool (kind chosen by createPool), `reset` + `create` for the model, the
+// creation record into the own log.  false: nothing was created (the block is closed).
+func (e *twEngine) openHistory() bool {
+	h, o := e.h, e.o
+	e.recs, e.lastKept, e.posIds, e.poolId = nil, nil, nil, 0
+	if !e.createPool() {
+		e.endBlock(e.randDt())
+		return false
+	}
+	o.Emit("twap reset", "ok", false)
+	rec, ok := e.mostRecent()
+	if !ok {
+		o.Fail("create:no-record-for-new-pool", fmt.Sprintf("pool %d %s", e.poolId, e.kind))
+		return false
+	}
+	_, _, e0, e1 := e.poolPrices()
+	errNow := rec.LastErrorTime.Equal(h.Ctx.BlockTime())
+	o.Emit(fmt.Sprintf("twap create %s %d %s %s %s", nsOf(h.Ctx.BlockTime()), h.Ctx.BlockHeight(), rec.P0LastSpotPrice.BigInt(), rec.P1LastSpotPrice.BigInt(), twB01(errNow)), "ok "+recStr(rec), true)
+	if (e0 != nil || e1 != nil) != errNow {
+		o.Fail("create:error-time-does-not-match-spot-price-read", fmt.Sprintf("pool %d %s record %s", e.poolId, e.kind, recStr(rec)))
+	}
+	if (rec.P0LastSpotPrice.IsZero() || rec.P1LastSpotPrice.IsZero()) && !errNow {
+		o.Fail("create:zero-price-recorded-without-error", fmt.Sprintf("pool %d %s record %s", e.poolId, e.kind, recStr(rec)))
+	}
+	if !rec.Time.Equal(h.Ctx.BlockTime()) {
+		o.Fail("create:record-not-at-block-time", fmt.Sprintf("pool %d %s block %s record %s", e.poolId, e.kind, nsOf(h.Ctx.BlockTime()), recStr(rec)))
+	}
+	e.logRecord(h.Ctx.BlockTime(), rec, e0 != nil || e1 != nil)
+	return true
 }
 
 func runTwap(t *testing.T, seed int64, n int, dir string) {
@@ -1431,7 +1501,7 @@ func runTwap(t *testing.T, seed int64, n int, dir string) {
 		e.prunedAt = h.App.TwapKeeper.GetPruningState(h.Ctx).LastKeptTime
 	}
 	histories := 0
-	worlds, opsWorld := 0, 0
+	worlds, opsWorld, opsDirected := 0, 0, 0
 	share := 2
 	if strings.Contains(os.Getenv("VERIF_FAIL_FILTER"), "export-import") {
 		share = 4 // C19 borrows this engine for the export / import op of the single-pool histories
@@ -1447,12 +1517,17 @@ func runTwap(t *testing.T, seed int64, n int, dir string) {
 			h.Ctx = h.Ctx.WithBlockTime(wbase)
 			h.SetEpochStartTime()
 			e.h = h
+			e.hdrZone = nil
+			if r.Intn(5) == 0 {
+				e.hdrZone = twZones()[r.Intn(len(twZones()))]
+			}
 			e.finalize(wbase.Add(5 * time.Second))
 			budget := n / 6
 			if budget < 700 {
 				budget = 700
 			}
 			e.runWorld(budget)
+			e.hdrZone = nil
 			e.h, e.prunedAt = hs, ps
 			opsWorld += o.n - before
 			continue
@@ -1464,29 +1539,21 @@ func runTwap(t *testing.T, seed int64, n int, dir string) {
 			freshApp()
 		}
 		histories++
-		h := e.h
+		e.hdrZone = nil
+		if r.Intn(6) == 0 {
+			e.hdrZone = twZones()[r.Intn(len(twZones()))]
+		}
+		// directed drain / refill histories with sub-millisecond structure (twap_time_test.go): 40% of the single-pool budget
+		if os.Getenv("VERIF_TWAP_DIRECTED") != "0" && share == 2 && opsDirected*5 <= 2*(o.n-opsWorld) {
+			before := o.n
+			e.errHistory(n)
+			opsDirected += o.n - before
+			continue
+		}
 		// ---- new history: new pool
-		e.recs, e.lastKept, e.posIds, e.poolId = nil, nil, nil, 0
-		if !e.createPool() {
-			e.endBlock(e.randDt())
+		if !e.openHistory() {
 			continue
 		}
-		o.Emit("twap reset", "ok", false)
-		rec, ok := e.mostRecent()
-		if !ok {
-			o.Fail("create:no-record-for-new-pool", fmt.Sprintf("pool %d %s", e.poolId, e.kind))
-			continue
-		}
-		_, _, e0, e1 := e.poolPrices()
-		errNow := rec.LastErrorTime.Equal(h.Ctx.BlockTime())
-		o.Emit(fmt.Sprintf("twap create %s %d %s %s %s", nsOf(h.Ctx.BlockTime()), h.Ctx.BlockHeight(), rec.P0LastSpotPrice.BigInt(), rec.P1LastSpotPrice.BigInt(), twB01(errNow)), "ok "+recStr(rec), true)
-		if (e0 != nil || e1 != nil) != errNow {
-			o.Fail("create:error-time-does-not-match-spot-price-read", fmt.Sprintf("pool %d %s record %s", e.poolId, e.kind, recStr(rec)))
-		}
-		if (rec.P0LastSpotPrice.IsZero() || rec.P1LastSpotPrice.IsZero()) && !errNow {
-			o.Fail("create:zero-price-recorded-without-error", fmt.Sprintf("pool %d %s record %s", e.poolId, e.kind, recStr(rec)))
-		}
-		e.logRecord(rec, e0 != nil || e1 != nil)
 		if e.kind == "cl" && r.Intn(4) != 0 {
 			e.action() // first position in the creation block
 		}
